@@ -48,7 +48,14 @@ def install(it):
 
     # ---- memory -------------------------------------------------------------
     def op_new(it, a):
-        n = a[0]
+        n = it._known(a[0])
+        if type(n) is not int and type(n) is Node and n.sort == 'I' and it.pathctl is not None and getattr(it.pathctl, 'symbolic_alloc', False):
+            # allocation with a symbolic byte count: the object has that size for every bounds decision; the backing store is fixed
+            if not it.decide(S.cmp('le', n, S.iconst(1 << 31, 64))):
+                it.throw_std('_ZTISt9bad_alloc')
+            p = it.alloc(1 << 16, 'heap', 'new(%s)@%s' % (S.show(n, 3), it.call_stack[-1] if it.call_stack else '?'))
+            it.regions[p >> SHIFT].sym_size = n
+            return p
         if type(n) is not int: n = it.concretize_int(n)
         if n > (1 << 31):
             it.throw_std('_ZTISt9bad_alloc')
